@@ -378,6 +378,10 @@ def d4(cx: Cx, ob: Ob) -> None:
     conv = ("attr", me, "converter")
     saw_none = saw_list = False
     through = any(op(c[1]) == "attr" and c[1][1] == conv and c[1][2] in ("parse_uri", "expand_pair_all") for c, _, _ in s.calls())
+    own_state = sorted({x[2] for ev, _ in s.walk() if ev.kind == "guard" for x in subterms(ev.a) if op(x) == "attr" and x[1] == me and x[2] not in ("converter", "query_predicates", "predicates")})
+    if own_state:
+        ob.undecide(f"_expand_pair_all consults self.{own_state[0]} (state of the graph itself, e.g. a remembered match) besides the converter: the paths through it are not followed")
+        return
     if not through:
         ob.funnel(fn.qualname, fn.where, "_expand_pair_all answers without converter.parse_uri / expand_pair_all", False, "converter.parse_uri / expand_pair_all")
         return
@@ -752,6 +756,28 @@ def d8(cx: Cx, ob: Ob) -> None:
     from ..rules import class_state_closure
 
     class_state_closure(cx, ob, f"{A}.MappingServiceGraph")
+    # a memo of the last answer that is RE-VALIDATED against the converter's trie before it is used (no longer
+    # registered prefix matches as well) does not make answers depend on history; that the validation is complete
+    # is a question about the trie query, so the verdict is "not decided" rather than "violated"
+    ci = cx.model.cls(f"{A}.MappingServiceGraph", ob.id)
+    keep = []
+    for f in ob.findings:
+        attr = f.key.rsplit("state-write:", 1)[-1] if "state-write:" in f.key else None
+        validated = False
+        if attr is not None:
+            for m in ci.methods.values():
+                if not m.self_name:
+                    continue
+                ms = cx.summary(m, ob.id)
+                me_ = ("param", m.self_name)
+                for ev, ctx in ms.walk():
+                    if ev.kind == "guard" and any(x == ("attr", me_, attr) for g in ctx.guards + (ev,) for x in subterms(g.a)) and any(op(x) == "attr" and x[2] == "trie" for x in subterms(ev.a)):
+                        validated = True
+        if validated:
+            ob.undecide(f"MappingServiceGraph remembers self.{attr} between queries and checks it against converter.trie before using it: that the check excludes every longer registered prefix is not decided")
+        else:
+            keep.append(f)
+    ob.findings[:] = keep
 
 
 @obligation("C18-D9", "VALUES placement: MappingServiceSPARQLProcessor.query evaluates only a query whose algebra went through _optimize_node, unconditionally; _optimize_node swaps the operands of exactly the Join nodes whose second operand is a ToMultiSet (VALUES) and whose first is not, and recurses into every child", floor=2)
